@@ -91,6 +91,7 @@ class Check:
         self.level = level
         self.t0 = time.time()
         self.violations = []       # (key, detail, replay)
+        self.violation_counts = {}
         self.inconclusive = []
         self.coverage = {}
         self.samples = []
@@ -107,8 +108,9 @@ class Check:
 
     # ---- bookkeeping
     def violation(self, key, detail, replay_obj=None):
-        if len(self.violations) >= 200:
-            self.violations.append((key, '(more)', None))
+        n = self.violation_counts.get(key, 0)
+        self.violation_counts[key] = n + 1
+        if n >= 3:          # three witnesses per key are kept; the rest is only counted
             return
         path = None
         if replay_obj is not None:
@@ -165,7 +167,7 @@ class Check:
         ev = {
             'property_id': self.prop, 'tier': self.tier, 'seed': seed(), 'level': self.level,
             'coverage': cov, 'assumptions': self.assumptions, 'wall_s': round(wall, 2),
-            'violations': len(reported),
+            'violations': sum(self.violation_counts.get(k, 0) for k in set(k for k, _, _ in reported)),
         }
         os.makedirs(os.path.join(VERIF, 'evidence'), exist_ok=True)
         with open(os.path.join(VERIF, 'evidence', self.prop + '.json'), 'w') as f:
